@@ -319,8 +319,16 @@ def branch_stmts(sts, params):
             continue
         c = parse_call(rhs)
         if c:
-            out.append(("SCall", c[0], [aexp(a, params, binds) for a in c[1]]))
+            out.append(("SCall" if m else "SCallV", c[0], [aexp(a, params, binds) for a in c[1]]))
             continue
+        if m:                                                       # ret = (f(args) ? A : B)
+            r2 = strip_casts(rhs)
+            m4 = re.match(r"^(.*\))\s*\?\s*(-?\s*\d+)\s*:\s*(-?\s*\d+)$", r2)
+            c = parse_call(m4.group(1)) if m4 else None
+            if c:
+                out.append(("SCallTern", c[0], [aexp(a, params, binds) for a in c[1]],
+                            int(m4.group(2).replace(" ", "")), int(m4.group(3).replace(" ", ""))))
+                continue
         out.append(("SOther", t[:40]))
     return out
 
@@ -661,8 +669,10 @@ def cstmt(s):
         return "SInit (%s)" % caexp(s[1])
     if k == "SWarn":
         return "SWarn"
-    if k == "SCall":
-        return "SCall %s [%s]" % (cstr(s[1]), "; ".join(caexp(a) for a in s[2]))
+    if k in ("SCall", "SCallV"):
+        return "%s %s [%s]" % (k, cstr(s[1]), "; ".join(caexp(a) for a in s[2]))
+    if k == "SCallTern":
+        return "SCallTern %s [%s] %s %s" % (cstr(s[1]), "; ".join(caexp(a) for a in s[2]), cz(s[3]), cz(s[4]))
     if k == "SConst":
         return "SConst %s" % cz(s[1])
     if k == "SRetMap":
